@@ -333,6 +333,44 @@ Section ShotProofs.
     order_stop_b (step_obs Req rname rid steps) (send_ids evs) (sample_obs evs) = true.
   Proof. unfold Scenario.shoot. apply run_order_stop_b. Qed.
 
+  (* ---------- min_waiting_time ---------- *)
+
+  Variable o_elapsed : W -> Z.
+  Notation shoot_timed := (shoot_timed W Src Req Rend Resp V rname o_pre o_render o_exec o_post o_status o_elapsed).
+
+  Fixpoint sum_pauses (l : list (nat * Z)) : Z :=
+    match l with [] => 0%Z | (_, ms) :: r => (ms + sum_pauses r)%Z end.
+
+  Lemma min_wait_total minw spent : (spent + min_wait_sleep minw spent = Z.max spent minw)%Z.
+  Proof. unfold min_wait_sleep. destruct (Z.ltb_spec spent minw); lia. Qed.
+
+  (* A shot whose steps all succeed lasts max(time spent in the steps, min_waiting_time); given
+     that the pauses really elapsed (time.Sleep never returns early) that is at least
+     max(sum of the written pauses, min_waiting_time).  A shot with a failing step does not
+     wait for min_waiting_time. *)
+  Theorem shoot_min_waiting src steps minw w :
+    let '(evs, w1, out, fin) := shoot_timed src steps minw w in
+    match out with
+    | Done =>
+        (o_elapsed w1 + fin = Z.max (o_elapsed w1) minw)%Z /\
+        (minw <= o_elapsed w1 + fin)%Z /\ (0 <= fin)%Z /\
+        pauses evs = pauses_spec Req 0 steps /\
+        ((sum_pauses (pauses evs) <= o_elapsed w1)%Z ->
+         (Z.max (sum_pauses (pauses_spec Req 0 steps)) minw <= o_elapsed w1 + fin)%Z)
+    | FailedAt _ _ => fin = 0%Z
+    end.
+  Proof.
+    unfold Scenario.shoot_timed.
+    pose proof (run_order_stop steps 0 {| t_src := src; t_req := [] |} [] w) as H.
+    unfold Scenario.shoot.
+    destruct (run 0 steps _ [] w) as [[evs w1] out]. destruct H as (A & _ & _).
+    destruct out as [|j k]; [|reflexivity].
+    cbn [order_stop_spec] in A. destruct A as (_ & _ & _ & Hp).
+    pose proof (min_wait_total minw (o_elapsed w1)) as T.
+    assert (0 <= min_wait_sleep minw (o_elapsed w1))%Z by (unfold min_wait_sleep; destruct (Z.ltb_spec (o_elapsed w1) minw); lia).
+    repeat split; try lia; [exact Hp|]. intros Hs. rewrite <- Hp. lia.
+  Qed.
+
   (* ---------- the shot ---------- *)
 
   Theorem shoot_order_stop src steps w :
